@@ -148,6 +148,29 @@ func c16OverwriteCheck(c c16Overwrite) error {
 	if err := compareWalkers(pj2, allWalkers, mc); err != nil {
 		return fmt.Errorf("no-copy mode (input intact): %v", err)
 	}
+	// what the caller took out while the input was intact stays its own: Go strings and interface{} trees are values
+	it0 := pj2.Iter()
+	taken, terr := it0.Interface()
+	if terr != nil {
+		return fmt.Errorf("no-copy mode Interface(): %v", terr)
+	}
+	var keys [][]byte
+	var strs []string
+	{
+		ki := pj2.Iter()
+		for {
+			tag := ki.AdvanceInto()
+			if tag == simdjson.TagEnd {
+				break
+			}
+			if tag == simdjson.TagString {
+				s, _ := ki.String()
+				strs = append(strs, s)
+				b, _ := ki.StringBytes()
+				keys = append(keys, append([]byte(nil), b...))
+			}
+		}
+	}
 	it := pj2.Iter()
 	m2, err := it.MarshalJSON()
 	if err != nil {
@@ -165,6 +188,27 @@ func c16OverwriteCheck(c c16Overwrite) error {
 	}
 	if !bytes.Equal(in2, c.Doc) {
 		return fmt.Errorf("Parse modified its input in no-copy mode")
+	}
+	// iteration is over: the caller recycles the input buffer of the no-copy parse
+	for i := range in2 {
+		in2[i] = '#'
+	}
+	for i := range strs {
+		if strs[i] != string(keys[i]) {
+			return fmt.Errorf("no-copy mode: a string returned by Iter.String() changed after the input buffer was recycled: now %q, was %q", clipS(strs[i]), clip(keys[i]))
+		}
+	}
+	var tc []byte
+	if roots, ok := taken.([]interface{}); ok {
+		for i, r := range roots {
+			if i > 0 {
+				tc = append(tc, '\n')
+			}
+			tc = canonIface(tc, r)
+		}
+	}
+	if want := mc(canonOpts{noFlags: true, mapMode: true}); !bytes.Equal(tc, want) {
+		return fmt.Errorf("no-copy mode: the value returned by Interface() changed after the input buffer was recycled: %s", diffCanon(want, tc))
 	}
 	return nil
 }
